@@ -210,25 +210,32 @@ inductive MatchResult where
   | notFound
   deriving Repr
 
+def slashStar : Bytes := [0x2F, 0x2A]
+
+/-- the last two fallbacks of `QuickMatch`: the `/*` route of the method, then method-not-allowed -/
+def tailMatch (rt : RouterM) (method path : Bytes) : MatchResult × RouterM :=
+  match (if rt.opts.fallback then alistGet rt.stable (method ++ slashStar) else none) with
+  | some r => (.fallback r, rt)
+  | none =>
+    if rt.opts.notAllowed then
+      let res := findAllowed rt method path
+      if res.1.isEmpty then (.notFound, res.2) else (.allowed res.1, res.2)
+    else (.notFound, rt)
+
+/-- for HEAD requests, attempt fallback to GET; then the remaining fallbacks -/
+def headMatch (rt : RouterM) (method path : Bytes) : MatchResult × RouterM :=
+  if method = methodHEAD then
+    match matchM rt methodGET path with
+    | (some (r, ps, c), rt2) => (.route r ps c, rt2)
+    | (none, rt2) => tailMatch rt2 method path
+  else tailMatch rt method path
+
 /-- `Router.QuickMatch` -/
 def quickMatch (rt : RouterM) (method path0 : Bytes) : MatchResult × RouterM :=
   let path := fmtPath rt.opts.strict (if rt.opts.intercept.isEmpty then path0 else rt.opts.intercept)
   match matchM rt method path with
   | (some (r, ps, c), rt1) => (.route r ps c, rt1)
-  | (none, rt1) =>
-    let headTry : Option (RouteM × Params × Bool) × RouterM :=
-      if method = methodHEAD then matchM rt1 methodGET path else (none, rt1)
-    match headTry with
-    | (some (r, ps, c), rt2) => (.route r ps c, rt2)
-    | (none, rt2) =>
-      let fb := if rt.opts.fallback then alistGet rt2.stable (method ++ [0x2F, 0x2A]) else none
-      match fb with
-      | some r => (.fallback r, rt2)
-      | none =>
-        if rt.opts.notAllowed then
-          let (alm, rt3) := findAllowed rt2 method path
-          if alm.isEmpty then (.notFound, rt3) else (.allowed alm, rt3)
-        else (.notFound, rt2)
+  | (none, rt1) => headMatch rt1 method path
 
 /-! ### specification of route selection (what C01 demands) -/
 
